@@ -112,12 +112,14 @@ impl SlotBlockData {
         let res = block_data.add_shred(shred, shredder);
 
         // a repaired block must hash to the identifier it was requested under
+        // NOTE: this is the fault of whoever served the shreds, not provably of the leader,
+        //       so the data is dropped without reporting an invalid shred
         if let Ok(Some(BlockstoreEvent::Block { block_info, .. })) = &res
             && block_info.hash != hash
         {
             warn!("repaired block does not match the requested block hash, discarding it");
             self.repaired.remove(&hash);
-            return Err(AddShredError::InvalidShred);
+            return Ok(None);
         }
         res
     }
